@@ -91,15 +91,19 @@ def gen_cluster_ops(rng, vals, rows, cols, many=False):
         elif r < 0.55 and rows * cols > 1:
             d = rng.choice([(a, b) for a in range(rows) for b in range(cols) if (a, b) != (0, 0)])
             op = ["cl_move", d[0], d[1]]
-        elif r < 0.72 and len(occupied) >= 2:
+        elif r < 0.68 and len(occupied) >= 2:
             op = ["cl_remove", rng.choice(occupied)]
+        elif r < 0.75:
+            # every cluster removed: no charge left (the frame is empty afterwards, later cluster operations stop here)
+            ops.append(["cl_remove_all", rng.choice(["all", "ids"])])
+            return ops, [0] * len(vals), False
         elif r < 0.86:
             op = ["add", "charge", rng.randrange(1, 40)]
         else:
             op = ["clusters", rng.choice(["add_charge", "dataframe"]), gen_triples(rng, rows, cols)]
         vals = sim_charge(vals, op, rows, cols)
         ops.append(op)
-    return ops, vals
+    return ops, vals, True
 
 
 def gen_case(rng, force=None):
@@ -125,6 +129,14 @@ def gen_case(rng, force=None):
     # the wavelength grid of a multi-wavelength photon bucket may change from readout to readout (same number of bins)
     wl_shift = bool(force.get("wl_shift")) or rng.random() < 0.4
     grids = [[w + d for w in wl] for d in (0.0, 25.0, 100.0, -50.0, 250.0)]
+    own_yx, own_yx_mode = None, rng.choice(["const", "const", "some-steps"])
+    if force.get("own_yx") or rng.random() < 0.35:
+        oy, ox = rng.choice([1, 3, 10, -2]), rng.choice([2, 5, 0, 7])
+        own_yx = rng.choice([
+            {"y": [oy + r for r in range(rows)], "x": [ox + c for c in range(cols)]},
+            {"y": [0.5 * r - 1.25 for r in range(rows)], "x": [0.25 * c + 3.5 for c in range(cols)]},
+            {"y": list(range(rows)), "x": [ox + 1 + c for c in range(cols)]},
+        ])
     owners = {}
     for b in ("photon", "signal", "image", "charge", "pixel"):
         p = {"photon": 0.7, "signal": 0.6, "image": 0.75, "charge": 0.5, "pixel": 0.3}[b]
@@ -164,7 +176,11 @@ def gen_case(rng, force=None):
                 charge_vals = list(vals)
             if b == "photon" and photon3d:
                 wl_i = (grids[i % len(grids)] if rng.random() < 0.7 else rng.choice(grids)) if wl_shift else wl
-                step_ops[o["model"]].append(["set3d", o["dtype"], wl_i, vals])
+                op3 = ["set3d", o["dtype"], wl_i, vals]
+                if own_yx:
+                    # the cube carries its own row / column labels (a cut-out: offset integers; sky units: floats)
+                    op3.append(own_yx if own_yx_mode == "const" or i % 2 == 0 else None)
+                step_ops[o["model"]].append(op3)
             else:
                 step_ops[o["model"]].append(["set", b, o["dtype"], vals])
         # later modifications by models after the owner: in-place add, rewrite of the same content
@@ -177,7 +193,7 @@ def gen_case(rng, force=None):
                         step_ops[mi].append(["clusters", rng.choice(["add_charge", "dataframe"]), tr])
                         charge_vals, charge_frame = sim_charge(charge_vals, step_ops[mi][-1], rows, cols), True
                     if rng.random() < (0.9 if force.get("clusters") else 0.6):
-                        ops_, charge_vals = gen_cluster_ops(rng, charge_vals, rows, cols, many=bool(force.get("clusters")))
+                        ops_, charge_vals, charge_frame = gen_cluster_ops(rng, charge_vals, rows, cols, many=bool(force.get("clusters")))
                         step_ops[mi].extend(ops_)
                     if "pixel" not in owners and rng.random() < 0.3:
                         step_ops[mi].append(["collect"])
@@ -267,13 +283,18 @@ def ints_of(a):
     return [int(v) if not math.isnan(v) else None for v in a.astype(np.float64).ravel().tolist()]
 
 
+def num(v):
+    v = float(v)
+    return int(v) if v.is_integer() else v
+
+
 def canon_result(res, rows, cols):
     """buckets of the returned DataTree in comparison form"""
     key = "/bucket" if "bucket" in res.children else "/"
     ds = (res["bucket"] if key == "/bucket" else res).to_dataset()
     out = {"layout": key, "times": [common.frac(float(v)) for v in ds["time"].to_numpy()] if "time" in ds else None,
-           "y": [int(v) for v in ds["y"].to_numpy()] if "y" in ds.coords else None,
-           "x": [int(v) for v in ds["x"].to_numpy()] if "x" in ds.coords else None, "vars": {}}
+           "y": [num(v) for v in ds["y"].to_numpy()] if "y" in ds.coords else None,
+           "x": [num(v) for v in ds["x"].to_numpy()] if "x" in ds.coords else None, "vars": {}}
     for b in BUCKETS:
         if b not in ds:
             out["vars"][b] = None
@@ -538,6 +559,8 @@ def lean_request(case):
                     lops.append(op)
                 elif op[0] == "zero":
                     lops.append(["scale", op[1], 0])
+                elif op[0] == "cl_remove_all":
+                    lops.append(["scale", "charge", 0])
                 elif op[0] == "clusters":
                     lops.append(["addat", "charge", adds_of(op[2], case["rows"], case["cols"])])
                 elif op[0] == "cl_scale":
@@ -625,6 +648,8 @@ def body(ck: common.Check):
         cases.append(("wavelength-grids", gen_case(rng, {"photon3d": True, "wl_shift": True, "nsteps": rng.choice([2, 3, 4])})))
     for _ in range(12 * k):
         cases.append(("zeroing", gen_case(rng, {"zeroing": True, "nsteps": rng.choice([1, 2, 3])})))
+    for _ in range(10 * k):
+        cases.append(("own-yx-labels", gen_case(rng, {"photon3d": True, "own_yx": True, "image": rng.choice(UINTS), "nsteps": rng.choice([1, 1, 2, 3])})))
     impls = pool_map(run_impl, [c for _, c in cases])
     answers = LeanDriver("C03").batch([lean_request(c) for _, c in cases])
     for (stream, case), impl, ans in zip(cases, impls, answers):
@@ -641,9 +666,10 @@ def body(ck: common.Check):
             elif op[0] == "set3d":
                 ck.count("photon=3d")
                 ck.count("photon-3d-grid=" + ("first" if op[2] == case_first_grid(case) else "other"))
+                ck.count("photon-3d-own-yx-labels", int(len(op) > 4 and bool(op[4])))
             elif op[0] == "zero":
                 ck.count("zeroed=" + op[1])
-            elif op[0] in ("clusters", "cl_scale", "cl_move", "cl_remove", "collect"):
+            elif op[0] in ("clusters", "cl_scale", "cl_move", "cl_remove", "cl_remove_all", "collect"):
                 ck.count("charge-op=" + op[0] + (":" + op[1] if op[0] == "clusters" else ""))
         ck.count("scene-written", int(any(op[0] == "scene" for op in ops)))
         ck.count("data-written", int(any(op[0] == "data" for op in ops)))
@@ -657,7 +683,7 @@ def body(ck: common.Check):
     ck.rule = ("pipelines of 1-8 writer probes over 1-4 groups + a snapshot probe last; 1-6 readouts, start time ≠ 0, both modes; "
                "buckets initialised in every step or in none, by a fixed owner model: photon 2-D/3-D (2-3 wavelengths) float16/32/64, "
                "signal float16/32/64, image uint8/16/32/64 (uint64 also with values above 2^53), charge (as array or as clusters put in "
-               "with add_charge / add_charge_dataframe, then rescaled or moved with set_frame_values, removed with remove_from_frame, "
+               "with add_charge / add_charge_dataframe, then rescaled or moved with set_frame_values, removed with remove_from_frame (one pixel's clusters, or all of them), "
                "mixed with array additions and collected into pixel by later models), pixel; constant or "
                "step-dependent integer values; later models add in place, rewrite the same content or set a non-zero bucket to exactly 0; scene sources and processed "
                "data written at random; three runs per case (flat, hierarchical, debug), a quarter of the debug runs on a detector "
